@@ -347,6 +347,9 @@ func main() {
 			"by descendants = the reorg path, children delivered first, after restart, headers first); the verdict is the generator's label; the active chain, utxo set and notifications are " +
 			"checked after every delivery; distinct = (recipe, context, family)")
 		c.Family("rules", c.N(700, 30000), runCase)
+		// branches stored on top of a block that fails at connect time, a valid way out below it, and manual invalidation
+		// above then below on one branch (shared scenario, see sim.ScenarioFan)
+		c.Family("fan", c.N(28, 1000), func(k *mon.Case) { sim.ScenarioFan(k, node.FamRegtest) })
 		rs := append(catalogue(), timewarpCatalogue()...)
 		for _, rc := range rs {
 			pol := "reject"
